@@ -211,7 +211,7 @@ LEVELS = {
                param_sems=(0, 1, 2), param_psp=True),
     # thorough, 3 variables / 3 plates: every eliminate set in one call; splits and scales of the full set
     "big": dict(E="all", one=("psp0", "psp1", "mod", "einsum"), splits="full", scales="full"),
-    "big-psp": dict(E="all", one=("psp0",)),
+    "big-psp": dict(E="full-1", one=("psp0",)),
     "edge": dict(E="full-1", one=("psp0", "sp"), scales="full"),
     "four": dict(E="full-1", one=("psp0", "dyn")),
 }
@@ -228,8 +228,8 @@ def plan(tier):
     return [
         ("q", graphs(2, 2, 3), (0, 1, 2), "t3"),
         ("u", g33, (0,), "big"),
-        ("u", g33, (1,), "big-psp"),
-        ("t", g33, (0, 2), "edge"),  # third plate of size 1
+        ("u", g33, (1, 2), "big-psp"),
+        ("t", g33, (0,), "edge"),  # third plate of size 1
         ("u", g4, (0,), "four"),
     ]
 
